@@ -34,6 +34,11 @@ pub fn seeds() -> Vec<(String, String)> {
         ("err-unbounded", "cmd <A>x;\n"),
         ("err-conflict", "cmd (a \"x\" | a \"y\");\n"),
         ("err-conflict-path", "cmd p q (a \"x\" | a \"y\") r;\n"),
+        ("err-conflict-after-word", "cmd --foo=<X> (a \"x\" | a \"y\");\n"),
+        ("err-conflict-after-word2", "cmd p --o=(u|v) [q] (a \"x\" | a \"y\");\n"),
+        ("err-conflict-after-command", "cmd {{{ echo c }}} <U> (a \"x\" | a \"y\");\n"),
+        ("err-conflict-inside-word", "cmd k=(a \"x\" | a \"y\") t;\n"),
+        ("err-conflict-after-spec", "cmd <P> <PATH> (a \"x\" | a \"y\");\n<P@bash> = {{{ echo p }}};\n<P@zsh> = {{{ _p }}};\n"),
         ("err-subword-spaces", "cmd x=<A> y;\n<A> = <B>;\n<B> = a b;\n"),
         ("err-subword-spaces-multiline", "cmd --very-long-option-name=<A>;\n<A> = quit \"descr that\ncontinues\" -f;\n"),
         ("warn-undefined", "cmd <UNDEF> [<_>];\n"),
@@ -652,7 +657,30 @@ pub fn run(tier: Tier) -> Report {
         }
     }
     // invalid UTF-8 and NUL bytes only exist at this level
-    let raw_bytes: Vec<Vec<u8>> = vec![vec![0xff], vec![b'c', b' ', 0xc3], b"cmd \xe9;".to_vec(), vec![0xf0, 0x9f], b"cmd a;\n\xff\xfe".to_vec(), vec![]];
+    let mut raw_bytes: Vec<Vec<u8>> = vec![vec![0xff], vec![b'c', b' ', 0xc3], b"cmd \xe9;".to_vec(), vec![0xf0, 0x9f], b"cmd a;\n\xff\xfe".to_vec(), vec![]];
+    // stress shapes (main-thread stack, not the workers' big one): deep nesting, long chains
+    let mut stress: Vec<(String, String)> = vec![];
+    for n in [200usize, 300, 3000, 60000] {
+        stress.push((format!("stress: {n} nested parentheses"), format!("cmd {}a{};", "(".repeat(n), ")".repeat(n))));
+        stress.push((format!("stress: {n} nested brackets"), format!("cmd {}a{};", "[".repeat(n), "]".repeat(n))));
+        stress.push((format!("stress: {n} unclosed parentheses"), format!("cmd {}a;", "(".repeat(n))));
+    }
+    for n in [300usize, 3000, 20000] {
+        let mut t = String::from("cmd <A0>;\n");
+        for i in 0..n {
+            t.push_str(&format!("<A{i}> = x <A{}>;\n", i + 1));
+        }
+        t.push_str(&format!("<A{n}> = y;\n"));
+        stress.push((format!("stress: definition chain of length {n}"), t));
+    }
+    stress.push(("stress: 3000 alternatives".into(), format!("cmd {};", (0..3000).map(|i| format!("l{i}")).collect::<Vec<_>>().join(" | "))));
+    stress.push(("stress: 400 optional items".into(), format!("cmd {};", (0..400).map(|i| format!("[l{i}]")).collect::<Vec<_>>().join(" "))));
+    stress.push(("stress: 2000 repetitions".into(), format!("cmd a{};", " ...".repeat(1))));
+    for (_, t) in &stress {
+        raw_bytes.push(t.clone().into_bytes());
+    }
+    let stress_names: Vec<String> = stress.iter().map(|(n, _)| n.clone()).collect();
+    let n_plain_raw = raw_bytes.len() - stress.len();
     let n_bin = bin_jobs.len() + raw_bytes.len() * 4;
     let inputs_ref = &inputs;
     let versions_ref = &versions;
@@ -662,16 +690,31 @@ pub fn run(tier: Tier) -> Report {
             for j in bin_jobs.iter() {
                 push((inputs_ref[j.0].clone().into_bytes(), j.1, j.2, j.0));
             }
-            for rb in &raw_bytes {
+            for (k, rb) in raw_bytes.iter().enumerate() {
                 for (_, sn) in SHELLS {
-                    push((rb.clone(), sn, Dest::Sentinel, usize::MAX));
+                    if k >= n_plain_raw && sn != "bash" && sn != "zsh" {
+                        continue;
+                    }
+                    push((rb.clone(), sn, Dest::Sentinel, usize::MAX - 1 - k));
                 }
             }
         },
         || (Scratch::new("c06b"), Vec::<(String, String, J)>::new(), BTreeMap::<String, u64>::new()),
-        |st, (text, sn, d, _idx): (Vec<u8>, &'static str, Dest, usize)| match judge_binary(&text, sn, d, &st.0, versions_ref) {
+        |st, (text, sn, d, idx): (Vec<u8>, &'static str, Dest, usize)| match judge_binary(&text, sn, d, &st.0, versions_ref) {
             Ok(k) => *st.2.entry(k).or_default() += 1,
-            Err(v) => st.1.push(v),
+            Err(mut v) => {
+                // stress inputs: the violation class names the shape, so that a listed known
+                // finding covers exactly that shape
+                let k = usize::MAX - 1 - idx;
+                if idx > usize::MAX / 2 && k >= n_plain_raw && k < n_plain_raw + stress_names.len() {
+                    let name = &stress_names[k - n_plain_raw];
+                    let shape = name.trim_start_matches("stress: ").trim_start_matches(|c: char| c.is_ascii_digit() || c == ' ').replace(' ', "-");
+                    let shape = shape.trim_end_matches(|c: char| c.is_ascii_digit() || c == '-').to_string();
+                    v.0 = format!("{}-on-{}", v.0, shape);
+                    v.1 = format!("[{name}] {}", v.1);
+                }
+                st.1.push(v)
+            }
         },
     );
     let mut bin_ok: BTreeMap<String, u64> = BTreeMap::new();
